@@ -147,9 +147,11 @@ def _shard(arg):
             if n_b * n_o * n_t > 1500:
                 n_o = max(1, n_o // 2)
         incs = draw(st.lists(st.integers(20, 900), min_size=n_t, max_size=n_t))
-        radii = [f"{v / 1000:.3f}" for v in np.cumsum(incs)]
+        scale = draw(st.sampled_from([1000, 1000, 1000, 10 ** 5, 10 ** 6, 10]))  # nm: ordinary, very small and large radii
+        digits = {1000: 3, 10 ** 5: 5, 10 ** 6: 6, 10: 1}[scale]
+        radii = [f"{v / scale:.{digits}f}" for v in np.cumsum(incs)]
         cart = draw(st.booleans()) and n_o >= 3
-        f = draw(st.sampled_from([1.0, 2.0, 2.0, 0.25, 0.5, 1.5, 3.0, 4.0, 0.7310585786]))
+        f = draw(st.sampled_from([1.0, 2.0, 2.0, 0.25, 0.5, 1.5, 3.0, 4.0, 0.7310585786, 1e-3, 1e-4, 1e3, 37.5]))
         return {"b_alg": draw(st.sampled_from(["cube4D", "randomQ"])), "n_b": n_b,
                 "o_alg": draw(st.sampled_from(["ico", "cube3D", "randomS"])), "n_o": n_o, "radii": radii,
                 "factor": f, "cartesian": cart}
@@ -186,7 +188,7 @@ def run(tier):
     total, max_b, max_o = (240, 24, 30) if tier == "quick" else (1600, 60, 80)
     res = merge_results(pmap(_shard, [(s, total // 16, max_b, max_o) for s in range(16)]))
     rule = (f"Hypothesis: rotation grid zero4D_1 or cube4D/randomQ with N in 4..{max_b}; direction grid zero3D_1 or ico/cube3D/randomS "
-            f"with N in 2..{max_o}; 2..5 increasing radii with non-uniform spacing; factor in {{1, 2, 0.25, 0.5, 1.5, 3, 4, 0.731}}; both "
+            f"with N in 2..{max_o}; 2..5 increasing radii with non-uniform spacing; radii over several length scales (1e-5 .. 100 nm); factor in {{1, 2, 0.25, 0.5, 1.5, 3, 4, 0.731, 1e-3, 1e-4, 1e3, 37.5}}; both "
             f"position modes (Cartesian only for n_o>=3); at most 1500 cells. Every pair of cells judged (dense n x n). Non-trivial = "
             f"n_b>=4, n_o>=4, n_t>=2 (both neighbour families present); distinct = distinct specification.")
     return res, rule, {"assumptions": ["n_b in {2,3} is outside the property's quantifier and not generated",
